@@ -406,8 +406,10 @@ def EnvOwes (cp : CP) : Prop :=
     port, the completion of an in-flight request that has not been delivered yet, or the removal of a
     message at the head of the port that names no in-flight request (a bogus completion, which the Go
     code leaves in the port for ever) — or nothing at all is in flight and every CU refused the next
-    work-group of a dispatcher in this very tick (`RefusedIdle`: the group does not fit the hardware;
-    the real dispatcher then waits for ever, see the example below). -/
+    work-group of a dispatcher in this very tick (`RefusedIdle`; since the repair 91eb1bb3 a launch whose
+    first work-group fits no empty CU is rejected with a fault when it is taken, so this alternative
+    needs an initial pool that is not empty, see the examples below; `Props/C09Fit.lean` and
+    `Props/C09Held.lean` discharge it for a pool without residents). -/
 theorem no_stuck (cfg : Cfg) (nd : Nat) (pool : List CU) (ops : List Op) (hnd : 0 < nd)
     (hun : ¬ AllAnswered (run (mkCP cfg nd pool) ops)) :
     (cpTick (run (mkCP cfg nd pool) ops)).2 = true ∨
@@ -454,17 +456,37 @@ theorem no_stuck (cfg : Cfg) (nd : Nat) (pool : List CU) (ops : List Op) (hnd : 
           exact h4 ⟨ids, rest, hcu, fun r hr j hin => hno ⟨r, hr, j, hin⟩⟩
     · exact Or.inr (Or.inl hf)
 
-/-- a work-group asking for 200 SGPRs never fits the 64-SGPR demo CUs: nothing is in flight, the ports
-    have room, nothing is owed — and the tick makes no progress, for ever -/
+/-- a work-group asking for 200 SGPRs never fits the 64-SGPR demo CUs. Before the repair (91eb1bb3,
+    `runOld` / `cpTickOld`): nothing is in flight, the ports have room, nothing is owed — and the tick
+    makes no progress, for ever. The repaired `StartDispatching` rejects the launch in the tick that
+    takes it (`fault:oversize`; `Props/C09Fit.lean`: `oversize_group_is_rejected`). -/
 def tooBigOps : List Op := [.launch ⟨0, 64, 64, 200, 4, 256⟩, .tick, .tick]
 
-example : ¬ AllAnswered (run (mkCP demoCfg 2 demoPool) tooBigOps) ∧
-    (cpTick (run (mkCP demoCfg 2 demoPool) tooBigOps)).2 = false ∧
-    (cpTick (run (mkCP demoCfg 2 demoPool) tooBigOps)).1.fault = none ∧
-    (run (mkCP demoCfg 2 demoPool) tooBigOps).cuRoom = 4096 ∧
-    (run (mkCP demoCfg 2 demoPool) tooBigOps).cuIn = [] ∧
-    (run (mkCP demoCfg 2 demoPool) tooBigOps).disps.map (·.inflight) = [[], []] :=
-  ⟨fun h => absurd (h.2 0) (by decide), by decide, by decide, by decide, by decide, by decide⟩
+example : ¬ AllAnswered (runOld (mkCP demoCfg 2 demoPool) tooBigOps) ∧
+    (cpTickOld (runOld (mkCP demoCfg 2 demoPool) tooBigOps)).2 = false ∧
+    (cpTickOld (runOld (mkCP demoCfg 2 demoPool) tooBigOps)).1.fault = none ∧
+    (runOld (mkCP demoCfg 2 demoPool) tooBigOps).cuRoom = 4096 ∧
+    (runOld (mkCP demoCfg 2 demoPool) tooBigOps).cuIn = [] ∧
+    (runOld (mkCP demoCfg 2 demoPool) tooBigOps).disps.map (·.inflight) = [[], []] ∧
+    (run (mkCP demoCfg 2 demoPool) tooBigOps).fault = some "oversize" :=
+  ⟨fun h => absurd (h.2 0) (by decide), by decide, by decide, by decide, by decide, by decide, by decide⟩
+
+/-- `no_stuck` is stated for an arbitrary initial pool; its alternative `RefusedIdle` remains reachable
+    when the pool handed to `mkCP` already holds a resident work-group that no dispatcher holds (here
+    it fills the CU): the launch passes the fit check — the check looks at the *empty* CU — but is
+    refused at every tick. From a pool without residents this cannot happen (`Props/C09Fit.lean`,
+    `Props/C09Held.lean`). -/
+def foreignCU : CU := (reserve demoCU 99 ⟨4, 16, 4, 1024⟩).2
+def foreignOps : List Op := [.launch ⟨0, 64, 64, 16, 4, 256⟩, .tick, .tick]
+
+example : ¬ AllAnswered (run (mkCP demoCfg 2 [foreignCU]) foreignOps) ∧
+    (cpTick (run (mkCP demoCfg 2 [foreignCU]) foreignOps)).2 = false ∧
+    (cpTick (run (mkCP demoCfg 2 [foreignCU]) foreignOps)).1.fault = none ∧
+    (run (mkCP demoCfg 2 [foreignCU]) foreignOps).cuRoom = 4096 ∧
+    (run (mkCP demoCfg 2 [foreignCU]) foreignOps).cuIn = [] ∧
+    (run (mkCP demoCfg 2 [foreignCU]) foreignOps).disps.map (·.inflight) = [[], []] ∧
+    (cpTick (run (mkCP demoCfg 2 [foreignCU]) foreignOps)).1 = run (mkCP demoCfg 2 [foreignCU]) foreignOps :=
+  ⟨fun h => absurd (h.2 0) (by decide), by decide, by decide, by decide, by decide, by decide, by decide⟩
 
 /-- **`fair_environment_answers_every_launch`** (temporal liveness). Let any finite op sequence `ops0`
     (it contains all the launches, ids distinct) be followed by an infinite launch-free schedule of
